@@ -26,7 +26,7 @@ Definition rsys := @sys rdev bytes.
 Definition can_op (s : rsys) : bool :=
   match s_pc s with
   | Write _ _ _ => true
-  | Until _ _ => match s_reader s with RRun => negb (match s_queue s with [] => true | _ => false end) | _ => true end
+  | Until _ _ _ => match s_reader s with RRun => negb (match s_queue s with [] => true | _ => false end) | _ => true end
   | _ => false
   end.
 
@@ -61,13 +61,16 @@ Definition finished_pc (s : rsys) : bool :=
   match s_pc s with Ret _ | Fail _ => true | _ => false end.
 
 (* replay state: system, calls not yet started, outcomes so far (newest first), call in flight? *)
-Record rst := mkRst { r_sys : rsys; r_calls : list (prog bytes); r_outs : list call_out; r_inflight : bool }.
+(* a call may depend on the notes logged so far (state the driver keeps between calls, such as the
+   cached privilege level, is recovered from them) *)
+Definition call := list (N * bytes) -> prog bytes.
+Record rst := mkRst { r_sys : rsys; r_calls : list call; r_outs : list call_out; r_inflight : bool }.
 
 (* close the call in flight (if finished) and start the next one *)
 Definition next_call (st : rst) : option rst :=
   match r_calls st with
   | p :: calls' =>
-      Some (mkRst (load (r_sys st) p) calls'
+      Some (mkRst (load (r_sys st) (p (s_notes (r_sys st)))) calls'
                   (if r_inflight st then out_of (r_sys st) :: r_outs st else r_outs st) true)
   | [] => None
   end.
@@ -126,7 +129,7 @@ Fixpoint logged_writes (log : list lev) : list (bytes * bytes) :=
   | _ :: t => logged_writes t
   end.
 
-Definition replay_session (cfg : chan_cfg) (start : bytes) (log : list lev) (calls : list (prog bytes))
+Definition replay_session (cfg : chan_cfg) (start : bytes) (log : list lev) (calls : list call)
   : rsys * list call_out :=
   let s0 : rsys := mkSys (logged_writes log, false) start [] [] (Ret []) [] [] RRun in
   let st := replay cfg log (mkRst s0 calls [] false) in
